@@ -305,6 +305,12 @@ func (s *v4Server) rmDynamicLease(lease *dhcpsvc.Lease) (err error) {
 		}
 
 		if !l.IsStatic && l.Hostname == lease.Hostname {
+			// Keep the hostname index consistent with the lease, so that the
+			// hostname can be given to the new lease.
+			if l.Hostname != "" && s.hostsIndex[l.Hostname] == l {
+				delete(s.hostsIndex, l.Hostname)
+			}
+
 			l.Hostname = ""
 		}
 
